@@ -365,3 +365,34 @@ def callback_tail_shapes():
         for t in tails:
             yield [h] + t
             yield [('let', 'let', 'y', None, P('b', 'ival')), h] + t
+
+
+def tails_after_skeletons(depth):
+    """callback bodies: every switch skeleton / nesting used as the head, followed by a declaration-only tail.
+    Inner `return r` becomes `return;`; the accumulator stays as an ordinary local."""
+    tails = [[('let', 'let', 'x', None, ('bin', '+', P('a', 'ival'), lit('int', 1)))],
+             [('let', 'let', 'x', 'int', None)],
+             [('block', [('let', 'const', 'x', None, P('a', 'sval'))])]]
+
+    def conv(ss):
+        out = []
+        for s in ss:
+            if s[0] == 'return':
+                out.append(('return', None))
+            elif s[0] == 'if':
+                out.append(('if', s[1], conv(s[2]), conv(s[3]) if s[3] is not None else None))
+            elif s[0] == 'switch':
+                out.append(('switch', s[1], [(c, conv(b)) for c, b in s[2]]))
+            elif s[0] == 'block':
+                out.append(('block', conv(s[1])))
+            else:
+                out.append(s)
+        return out
+    k = 0
+    for ss in itertools.chain(switch_skeletons(), nestings(depth)):
+        body = conv(ss)
+        # drop the final `return;` / trailing `r;` of the value skeleton
+        while body and body[-1][0] in ('return', 'expr'):
+            body.pop()
+        yield body + tails[k % len(tails)]
+        k += 1
